@@ -7,6 +7,7 @@ package main
 import (
 	"fmt"
 	"os"
+	"runtime/debug"
 	"sort"
 
 	"go.etcd.io/bbolt/verifh/drivers"
@@ -14,6 +15,8 @@ import (
 
 func main() {
 	if len(os.Args) >= 4 && os.Args[1] == "child" {
+		// a corrupted snapshot can send a reader into unbounded recursion: die at 128 MiB of stack, not at the default 1 GiB
+		debug.SetMaxStack(128 << 20)
 		fn := drivers.ChildModes[os.Args[2]]
 		if fn == nil {
 			fmt.Fprintln(os.Stderr, "unknown child mode", os.Args[2])
